@@ -124,6 +124,7 @@ def run(tier, seed, argv):
                        "diagonality test of factor matrices: only the generic (non-diagonal) side is followed in these layouts",
                        "grafting guard constant calibrated from the implementation, required to lie in [0, 1e-12]"]
     res = par.run_jobs(jobs, chunk=4)
+    rep.validate_standin(6 if tier == "quick" else 24)
     rep.absorb("reference-comparison", res)
     return rep.finish("checks.c01")
 
